@@ -19,6 +19,7 @@ import SwcVerif.Model.AlgoRunTraverse
 import SwcVerif.Model.AlgoRunSort
 import SwcVerif.Model.AlgoRunSubtree
 import SwcVerif.Model.AlgoRunPopulation
+import SwcVerif.Model.AlgoRunNormalizer
 import SwcVerif.Model.Assemble
 
 def dispatch (op : String) (args : List String) : String :=
@@ -49,6 +50,8 @@ def dispatch (op : String) (args : List String) : String :=
   | "ggetdsu" => AlgoRun.handleGetDsu args
   | "ghascyclic" => AlgoRun.handleHasCyclic args
   | "gbifurcate" => AlgoRun.handleBifurcate args
+  | "gsomas" => AlgoRun.handleSomas args
+  | "greset" => AlgoRun.handleReset args
   | "gtrav" => AlgoRun.handleTrav args
   | "gsort" => AlgoRun.handleSort args
   | "gsubtopo" => AlgoRun.handleSubTopo args
